@@ -5,7 +5,8 @@ The method bodies are executed symbolically from the real class definition; nump
 of the free matrix algebra with conjugation and transposition (pyvc/matnf.py).
   __init__      : base-class initialiser called with shape (n, n) and dtype result_type(R, L); _hermitian iff L is
                   absent / the same object / array_equal; then L := R
-  _apply(v)     = P v            _apply_left(v) = P^H v        (bound to _matvec/_matmat resp. _rmatvec/_rmatmat)
+  _apply(v)     = P v            _apply_left(v) = P^H v        (bound to _matmat resp. _rmatmat)
+  _matvec / _rmatvec: P resp. P^H applied to a vector (N,), to a column (N, 1), and to every row of a batch (B, N) (scipy >= 1.18 hands such batches to these hooks)
   _adjoint()    denotes P^H      conjugate() denotes conj(P)    _transpose() denotes P^T
   every object reachable by <= 3 of these operations denotes the right matrix and partners are cached mutually
   P P = P  when  L^H R = 1
@@ -28,16 +29,18 @@ MODULE = "linalg"
 
 
 class MArr(Model):
-    def __init__(self, nf, rows, cols, base=None, dtype="dt"):
-        self.nf, self.rows, self.cols, self.base, self.dtype = nf, rows, cols, base, dtype
+    def __init__(self, nf, rows, cols, base=None, dtype="dt", ndim=2):
+        self.nf, self.rows, self.cols, self.base, self.dtype, self.ndim = nf, rows, cols, base, dtype, ndim
 
     def m_getattr(self, eng, name):
+        if name == "ndim":
+            return self.ndim
         if name == "conj":
             return Builtin("ndarray.conj", lambda e: MArr(self.nf.conj(e.real_atoms), self.rows, self.cols, None, self.dtype))
         if name == "T":
             return MArr(self.nf.T(), self.cols, self.rows, None, self.dtype)
         if name == "shape":
-            return STup([SI(self.rows), SI(self.cols)])
+            return STup([SI(self.rows)]) if self.ndim == 1 else STup([SI(self.rows), SI(self.cols)])
         if name == "dtype":
             return DT(self.dtype)
         raise Unsupported(f"ndarray.{name}")
@@ -48,10 +51,10 @@ class MArr(Model):
         l, r = (other, self) if reflected else (self, other)
         if isinstance(op, ast.MatMult):
             eng.oblige(f"shapes:inner-dimensions-agree@{eng.site()}", l.cols == r.rows)
-            return MArr(l.nf * r.nf, l.rows, r.cols)
+            return MArr(l.nf * r.nf, l.rows, r.cols, ndim=r.ndim)
         if isinstance(op, (ast.Sub, ast.Add)):
             eng.oblige(f"shapes:elementwise-operands-agree@{eng.site()}", z3.And(l.rows == r.rows, l.cols == r.cols))
-            return MArr(l.nf - r.nf if isinstance(op, ast.Sub) else l.nf + r.nf, l.rows, l.cols)
+            return MArr(l.nf - r.nf if isinstance(op, ast.Sub) else l.nf + r.nf, l.rows, l.cols, ndim=l.ndim)
         return NotImplemented
 
     def m_is(self, eng, other):
@@ -76,6 +79,10 @@ class SProj(Model):
             return self.attrs[name]
         if name == "__class__":
             return self.cls
+        if name == "shape" and self.base_init:
+            # set by scipy's LinearOperator.__init__ (A-SC) from the arguments of the one base-class initialisation
+            args, kw = self.base_init[0]
+            return kw.get("shape", args[1] if len(args) > 1 else None)
         m = self.cls.methods.get(name)
         if m is not None:
             return Builtin(f"bound {name}", lambda e, *a, **k: e.call(Closure(m, Env(None, {}), name), [self, *a], k))
@@ -141,6 +148,11 @@ def make_harness(variant):
             e.assume(z3.Implies(eq, close))
             return SB(close)
 
+        def swapaxes(e, x, a1, a2):
+            if isinstance(x, MArr) and x.ndim == 2 and {a1, a2} == {-1, -2}:
+                return MArr(x.nf.T(), x.cols, x.rows, None, x.dtype)
+            raise Unsupported("np.swapaxes of something else")
+
         def result_type(e, a, b):
             return DT(("result_type", a.tag, b.tag))
 
@@ -170,7 +182,8 @@ def make_harness(variant):
 
         eng.globals.update({
             "np": Namespace("np", {"array_equal": Builtin("np.array_equal", array_equal), "allclose": Builtin("np.allclose", allclose), "result_type": Builtin("np.result_type", result_type),
-                                   "iscomplexobj": Builtin("np.iscomplexobj", iscomplexobj), "isrealobj": Builtin("np.isrealobj", isrealobj)}),
+                                   "iscomplexobj": Builtin("np.iscomplexobj", iscomplexobj), "isrealobj": Builtin("np.isrealobj", isrealobj),
+                                   "swapaxes": Builtin("np.swapaxes", swapaxes)}),
             "super": Builtin("super", lambda e: Super()),
         })
         # ---- construction --------------------------------------------------------------
@@ -215,8 +228,8 @@ def make_harness(variant):
                                                    and a.get("_transpose_operator") is None))
         # class-level bindings
         al = cls.aliases
-        eng.oblige("class:_matvec-and-_matmat-are-_apply", z3.BoolVal(al.get("_matvec") == "_apply" and al.get("_matmat") == "_apply"))
-        eng.oblige("class:_rmatvec-and-_rmatmat-are-_apply_left", z3.BoolVal(al.get("_rmatvec") == "_apply_left" and al.get("_rmatmat") == "_apply_left"))
+        eng.oblige("class:_matmat-is-_apply", z3.BoolVal(al.get("_matmat") == "_apply"))
+        eng.oblige("class:_rmatmat-is-_apply_left", z3.BoolVal(al.get("_rmatmat") == "_apply_left"))
         eng.oblige("class:__array_ufunc__-is-None", z3.BoolVal("__array_ufunc__" in cls.class_attrs and cls.class_attrs["__array_ufunc__"] is None),
                    detail="so that `ndarray @ P` defers to the operator's __rmatmul__")
         # ---- action on vectors / matrices ------------------------------------------------
@@ -229,6 +242,27 @@ def make_harness(variant):
         r = eng.call(P.m_getattr(eng, "_apply_left"), [v], {})
         eng.oblige("_apply_left:denotes-P^H-v", z3.BoolVal(isinstance(r, MArr) and r.nf == D.H() * v.nf),
                    detail=f"got {getattr(r, 'nf', None)}, want {D.H() * v.nf}")
+        # ---- _matvec / _rmatvec: a vector (N,), a column (N, 1) [all that scipy < 1.18 passes] and a batch of row vectors (B, N) [scipy >= 1.18] ----------
+        bsz = z3.Int("batch")
+        eng.assume(z3.And(bsz >= 1, z3.Not(z3.And(bsz == 1, n == 1))))      # for 1 x 1 operands the two readings of a (1, 1) array coincide
+        operands = {"vector": MArr(MNF.atom("x"), n, 1, "x", ndim=1), "column": MArr(MNF.atom("x"), n, 1, "x"), "rows": MArr(MNF.atom("X"), bsz, n, "X")}
+
+        def hook(name):
+            if name in cls.methods:
+                return P.m_getattr(eng, name)
+            target = al.get(name)
+            return P.m_getattr(eng, target) if target in cls.methods else None
+        for hname, dmat, what in (("_matvec", D, "P"), ("_rmatvec", D.H(), "P^H")):
+            for kind, x in operands.items():
+                h = hook(hname)
+                if h is None:
+                    eng.oblige(f"{hname}:defined", False)
+                    continue
+                r = eng.call(h, [x], {})
+                want = dmat * x.nf if kind != "rows" else x.nf * dmat.T()
+                okshape = isinstance(r, MArr) and eng.valid(z3.And(r.rows == x.rows, r.cols == x.cols))
+                eng.oblige(f"{hname}[{kind}]:denotes-{what}-applied-to-" + ("every-row" if kind == "rows" else "the-vector"),
+                           z3.BoolVal(isinstance(r, MArr) and r.nf == want and okshape), detail=f"got {getattr(r, 'nf', None)}, want {want}")
         # ---- orbit under adjoint / conjugate / transpose -----------------------------------
         ops = {"H": ("_adjoint", lambda x, real: x.H(real)), "C": ("conjugate", lambda x, real: x.conj(real)), "T": ("_transpose", lambda x, real: x.T())}
         partner_attr = {"H": "_adjoint_operator", "C": "_conjugate_operator", "T": "_transpose_operator"}
